@@ -10,6 +10,9 @@ import (
 	"encoding"
 	"encoding/binary"
 	"fmt"
+	"os"
+	"path"
+	"sync/atomic"
 	"testing"
 
 	sftp "github.com/pkg/sftp"
@@ -769,6 +772,7 @@ func vfRunC06(ctx *vfCtx, c vfCaseC06) {
 	if !bytes.Equal(body, ref[4:]) {
 		ctx.Failf("C06/W-decode-mutates-input/"+kind, "decoding modified the input bytes")
 	}
+	vfC06AttrBlocks(ctx, p, kind)
 	x, err := vfXDecode(body)
 	ctx.Class("X-decode")
 	if err != nil {
@@ -779,7 +783,220 @@ func vfRunC06(ctx *vfCtx, c vfCaseC06) {
 	}
 }
 
+// vfC06AttrBlocks: the wire codec's attribute decoders must consume exactly the
+// attribute block and hand back what follows it untouched (name lists rely on it).
+func vfC06AttrBlocks(ctx *vfCtx, p *vfPkt, kind string) {
+	var blocks []*vfAttrs
+	if p.Attrs != nil {
+		blocks = append(blocks, p.Attrs)
+	}
+	for i := range p.Names {
+		blocks = append(blocks, &p.Names[i].Attrs)
+	}
+	sentinel := []byte{0xaa, 0xbb, 0xcc, 0, 0, 0, 9}
+	for _, a := range blocks {
+		w := &vfW{}
+		w.attrs(a)
+		in := append(append([]byte{}, w.b...), sentinel...)
+		fs, rest, err := sftp.VfUnmarshalAttrs(in)
+		if err != nil {
+			ctx.Failf("C06/W-attrs-decode-error/"+kind, "unmarshalAttrs rejects a valid attribute block %s: %v", vfHex(w.b), err)
+		}
+		if !bytes.Equal(rest, sentinel) {
+			ctx.Failf("C06/W-attrs-remainder/"+kind, "unmarshalAttrs consumed %d of a %d-byte attribute block (flags %#x): what follows the block is handed back as %s", len(in)-len(rest), len(w.b), a.Flags, vfHex(rest))
+		}
+		got := vfAttrsOfFileStat(a.Flags, fs)
+		if !vfPktEqual(&vfPkt{Type: vfFxpAttrs, Attrs: got}, &vfPkt{Type: vfFxpAttrs, Attrs: a}) {
+			ctx.Failf("C06/W-attrs-roundtrip/"+kind, "unmarshalAttrs decodes %+v from the encoding of %+v", *vfNormAttrs(got), *vfNormAttrs(a))
+		}
+		// the by-flags variant used for requests
+		wb := &vfW{}
+		wb.attrBody(a)
+		in2 := append(append([]byte{}, wb.b...), sentinel...)
+		if _, rest2, err := sftp.VfUnmarshalFileStat(a.Flags, in2); err != nil || !bytes.Equal(rest2, sentinel) {
+			ctx.Failf("C06/W-attrs-remainder/"+kind, "unmarshalFileStat(flags %#x): err %v, remainder %s", a.Flags, err, vfHex(rest2))
+		}
+	}
+}
+
 var vfPropC06 = vfProp[vfCaseC06]{ID: "C06", Gen: vfGenC06, Run: vfRunC06}
+
+// ---- responses as decoded by the client --------------------------------------------------
+
+type vfCaseC06Client struct {
+	Op    string // ReadDir | Stat | Lstat | ReadLink | RealPath | Open | StatVFS | ReadAt | Mkdir
+	Reply vfPkt  // the server's reply (id is patched to the request's)
+}
+
+func vfGenC06Client(t *rapid.T) vfCaseC06Client {
+	c := vfCaseC06Client{Op: rapid.SampledFrom([]string{"ReadDir", "ReadDir", "Stat", "Lstat", "FStat", "ReadLink", "RealPath", "StatVFS", "ReadAt", "Mkdir"}).Draw(t, "op")}
+	switch c.Op {
+	case "ReadDir":
+		c.Reply = vfGenC06Kind(t, 23, -1).Pkt // NAME
+		for i := range c.Reply.Names {
+			if len(c.Reply.Names[i].Name) == 0 || bytes.ContainsAny(c.Reply.Names[i].Name, "/") {
+				c.Reply.Names[i].Name = []byte(fmt.Sprintf("n%d", i))
+			}
+		}
+	case "Stat", "Lstat", "FStat":
+		c.Reply = vfGenC06Kind(t, 24, -1).Pkt // ATTRS
+	case "ReadLink", "RealPath":
+		c.Reply = vfPkt{Type: vfFxpName, Names: []vfName{{Name: vfGenStr(t, "name", true), Long: vfGenStr(t, "long", false), Attrs: *vfGenAttrs(t, "a")}}}
+	case "StatVFS":
+		c.Reply = vfGenC06Kind(t, 29, -1).Pkt
+	case "ReadAt":
+		c.Reply = vfPkt{Type: vfFxpData, Data: vfGenPayload(t, "data", 20000)}
+	case "Mkdir":
+		c.Reply = vfPkt{Type: vfFxpStatus, Code: vfGenU32(t, "code"), Msg: vfGenStr(t, "msg", true), Lang: vfGenStr(t, "lang", false)}
+	}
+	return c
+}
+
+func vfRunC06Client(ctx *vfCtx, c vfCaseC06Client) {
+	baseline := vfPkgGoroutineIDs()
+	ctx.Class("clientop=" + c.Op)
+	var armed atomic.Bool
+	s, err := vfStartSession(vfOpts{MaxPacket: 32768, Conc: 2}, func(p *vfPeer, l *vfLink) {
+		p.mutate = func(idx int, req *vfPkt, frame []byte) []byte {
+			want := map[string]byte{"ReadDir": vfFxpReaddir, "Stat": vfFxpStat, "Lstat": vfFxpLstat, "FStat": vfFxpFstat, "ReadLink": vfFxpReadlink, "RealPath": vfFxpRealpath,
+				"StatVFS": vfFxpExtended, "ReadAt": vfFxpRead, "Mkdir": vfFxpMkdir}[c.Op]
+			if req.Type == want && armed.CompareAndSwap(true, false) {
+				r := c.Reply
+				r.ID = req.ID
+				return vfEncode(&r)
+			}
+			return frame
+		}
+	})
+	if err != nil {
+		ctx.Failf("harness/handshake", "%v", err)
+	}
+	r := &c.Reply
+	attrDesc := func(a *vfAttrs) string {
+		n := vfNormAttrs(a)
+		return fmt.Sprintf("size=%d uid=%d gid=%d perm=%#o atime=%d mtime=%d ext=%v", n.Size, n.UID, n.GID, n.Perm, n.Atime, n.Mtime, n.Ext)
+	}
+	statDesc := func(fs *sftp.FileStat, flags uint32) string {
+		return attrDesc(vfAttrsOfFileStat(flags, fs))
+	}
+	d, res := vfCall(func() (string, error) {
+		switch c.Op {
+		case "ReadDir":
+			armed.Store(true)
+			fis, err := s.c.ReadDir("/dir")
+			if err != nil {
+				ctx.Failf("C06/client-decode-error/NAME", "ReadDir rejects a valid NAME reply with %d entries: %v\nreply %s", len(r.Names), err, vfHex(vfEncode(r)))
+			}
+			var want []vfName
+			for _, n := range r.Names {
+				if s := string(n.Name); s != "." && s != ".." {
+					want = append(want, n)
+				}
+			}
+			if len(fis) != len(want) {
+				ctx.Failf("C06/client-decode/NAME-count", "ReadDir returned %d entries for a NAME reply carrying %d", len(fis), len(want))
+			}
+			for i, fi := range fis {
+				fs := fi.Sys().(*sftp.FileStat)
+				if fi.Name() != string(want[i].Name) && fi.Name() != path.Base(string(want[i].Name)) || statDesc(fs, want[i].Attrs.Flags) != attrDesc(&want[i].Attrs) {
+					ctx.Failf("C06/client-decode/NAME-entry", "entry %d decoded as %q %s, the reply says %q %s", i, fi.Name(), statDesc(fs, want[i].Attrs.Flags), want[i].Name, attrDesc(&want[i].Attrs))
+				}
+			}
+		case "Stat", "Lstat", "FStat":
+			var fi os.FileInfo
+			var err error
+			switch c.Op {
+			case "Stat":
+				armed.Store(true)
+				fi, err = s.c.Stat("/file")
+			case "Lstat":
+				armed.Store(true)
+				fi, err = s.c.Lstat("/file")
+			default:
+				f, e := s.c.Open("/file")
+				if e != nil {
+					return "", e
+				}
+				armed.Store(true)
+				fi, err = f.Stat()
+				f.Close()
+			}
+			if err != nil {
+				ctx.Failf("C06/client-decode-error/ATTRS", "%s rejects a valid ATTRS reply: %v\nreply %s", c.Op, err, vfHex(vfEncode(r)))
+			}
+			if got := statDesc(fi.Sys().(*sftp.FileStat), vfAttrFlags(r.Attrs)); got != attrDesc(r.Attrs) {
+				ctx.Failf("C06/client-decode/ATTRS", "%s decoded %s, the reply says %s", c.Op, got, attrDesc(r.Attrs))
+			}
+		case "ReadLink", "RealPath":
+			armed.Store(true)
+			var got string
+			var err error
+			if c.Op == "ReadLink" {
+				got, err = s.c.ReadLink("/link")
+			} else {
+				got, err = s.c.RealPath("x")
+			}
+			if err != nil || got != string(r.Names[0].Name) {
+				ctx.Failf("C06/client-decode/NAME1", "%s returned (%q, %v), the reply names %q", c.Op, got, err, r.Names[0].Name)
+			}
+		case "StatVFS":
+			armed.Store(true)
+			v, err := s.c.StatVFS("/")
+			if err != nil || v == nil {
+				ctx.Failf("C06/client-decode-error/EXTENDED_REPLY", "%v", err)
+			}
+			got := []uint64{v.Bsize, v.Frsize, v.Blocks, v.Bfree, v.Bavail, v.Files, v.Ffree, v.Favail, v.Fsid, v.Flag, v.Namemax}
+			if fmt.Sprint(got) != fmt.Sprint(r.VFS) {
+				ctx.Failf("C06/client-decode/EXTENDED_REPLY", "StatVFS decoded %v, the reply carries %v", got, r.VFS)
+			}
+		case "ReadAt":
+			f, e := s.c.Open("/file")
+			if e != nil {
+				return "", e
+			}
+			defer f.Close()
+			b := make([]byte, len(r.Data)+1)
+			armed.Store(true)
+			n, _ := f.ReadAt(b[:len(r.Data)], 0)
+			if len(r.Data) > 0 && (n != len(r.Data) || !bytes.Equal(b[:n], r.Data)) {
+				ctx.Failf("C06/client-decode/DATA", "ReadAt delivered %d bytes (first difference at %d), the DATA reply carries %d", n, vfDiffAt(b[:n], r.Data), len(r.Data))
+			}
+		case "Mkdir":
+			armed.Store(true)
+			err := s.c.Mkdir("/zzz")
+			switch r.Code {
+			case vfFxOK:
+				if err != nil {
+					ctx.Failf("C06/client-decode/STATUS", "status OK decoded as %v", err)
+				}
+			case vfFxEOF, vfFxNoSuchFile, vfFxPermissionDenied:
+				if vfErrCode(err) != int(r.Code) {
+					ctx.Failf("C06/client-decode/STATUS", "status code %d decoded as %v", r.Code, err)
+				}
+			default:
+				code, msg, lang, ok := sftp.VfStatusFields(err)
+				if !ok || code != r.Code || msg != string(r.Msg) || lang != string(r.Lang) {
+					ctx.Failf("C06/client-decode/STATUS", "status (%d,%q,%q) decoded as (%d,%q,%q) %v", r.Code, r.Msg, r.Lang, code, msg, lang, err)
+				}
+			}
+		}
+		return "", nil
+	})
+	if !vfAwait(ctx, d, c.Op) {
+		ctx.Failf("C06/client-decode/hang", "%s never returns\n%s", c.Op, vfDumpRelevant())
+	}
+	if res.Panic != nil {
+		if f, ok := res.Panic.(*vfFailure); ok {
+			panic(f)
+		}
+		ctx.Failf("panic/"+vfPanicSite([]byte(res.Stack)), "%v\n%s", res.Panic, vfTrimStack([]byte(res.Stack)))
+	}
+	if res.Err != nil {
+		ctx.Failf("harness/setup", "%v", res.Err)
+	}
+	ctx.NonTrivial()
+	vfEndSession(ctx, "C06", s, baseline)
+}
 
 func TestVerifC06(t *testing.T) {
 	// exhaustive part: every subset of the five attribute flags for every
@@ -808,4 +1025,8 @@ func TestVerifC06(t *testing.T) {
 		})
 	})
 	t.Run("gen", func(t *testing.T) { vfDriveSub(t, "gen", vfPropC06) })
+	t.Run("client", func(t *testing.T) {
+		defer vfScaleChecks(20)()
+		vfDriveSub(t, "client", vfProp[vfCaseC06Client]{ID: "C06", Gen: vfGenC06Client, Run: vfRunC06Client})
+	})
 }
